@@ -683,7 +683,7 @@ func batchSources(batch []C08Msg) []string {
 
 func init() {
 	kit.Register("C08a",
-		"rapid: batches of 1..8 KRPC messages from distinct IPv4/IPv6/v4-mapped sources injected concurrently: queries of every known and several unknown methods with any transaction ID (0..40 arbitrary bytes) and full/absent/partial argument dictionaries (announce_peer/put with a genuinely obtained token), mixed with responses, errors and messages of unknown or missing type; configurations passive / hook allow / hook veto / peer store on-off. After a quiescence barrier every datagram written is attributed by destination and judged: destination = source IP and port, t byte-identical, at most one per query, response carries the node ID and the requester's compact address, unknown method => 204, missing arguments => 203, nothing for non-queries or when passive/vetoed. Non-trivial: batch contains a non-printable or empty t, an unknown method, a missing `a`, or a non-query message.",
+		"rapid: batches of 1..8 KRPC messages from distinct IPv4/IPv6/v4-mapped sources injected concurrently: queries of every known and several unknown methods with any transaction ID (0..40 arbitrary bytes) and full/absent/partial argument dictionaries (announce_peer/put with a genuinely obtained token), mixed with responses, errors and messages of unknown or missing type; configurations passive / hook allow / hook veto / peer store on-off / BEP 42 enforced / a store backend that fails for some targets / an IP blocklist covering some sources. Senders may already be in the routing table (under either byte form of their IPv4 address), claim the node's own, its neighbour's or the zero ID, be link-local with a scope zone, and carry the transaction ID of a query the node itself has outstanding to that very address (own queries to blocklisted addresses must fail cleanly). After a quiescence barrier every datagram written is attributed by destination and judged: destination = source IP and port, t byte-identical, at most one per query, response carries the node ID and the requester's compact address, unknown method => 204, missing arguments => 203, nothing for non-queries or when passive/vetoed. Non-trivial: batch contains a non-printable or empty t, an unknown method, a missing `a`, or a non-query message.",
 		[]string{"announce_peer/put without an `a` dictionary: one error 203 or silence are both accepted (C08 and C10 overlap)",
 			"ping without `a`: a response or error 203 are both accepted",
 			"quiescence barrier: serve loop parked and every module goroutine blocked on two consecutive looks; missing replies are re-examined after a 2 s grace wait"},
